@@ -122,7 +122,7 @@ func checkDefect(t *rapid.T, s objsrv.Spec, b *objsrv.Built, res objsrv.Result) 
 	}
 	effects := objsrv.OfKind(res.Events, objsrv.KindEffect)
 	switch {
-	case s.Defect == objsrv.DefEACLHeader:
+	case s.Defect == objsrv.DefEACLHeader || s.Defect == objsrv.DefEACLHeaderRemote:
 		// the header has to be read to evaluate the rule; nothing of the object may reach the client
 		for _, e := range effects {
 			if strings.HasPrefix(e.What, "stream.") || strings.HasPrefix(e.What, "response.") || strings.HasPrefix(e.What, "put.") ||
